@@ -390,6 +390,13 @@ def completeness_identities(ck, F, pv, rule="R01.5"):
     pts = {"A_I1": s["A_I1"], "A_O1": s["A_O1"], "S1": s["S1"], "A_I2": on(s["A_I2"]), "A_O2": on(s["A_O2"]), "S2": on(s["S2"]), "T_1": s["T_1"], "T_3": s["T_3"], "T_4": s["T_4"], "T_5": s["T_5"], "T_6": s["T_6"]}
     j = isym("_j")
     R_ = REF.R
+    # one common non-zero factor of the whole check is allowed (e.g. the negated equation): lam = actual_B / reference_B
+    refB = sp.sympify(REF.combined(pad)[0][2](0))
+    actB = scal.index(sp.Integer(0), bnd).e
+    lam = sp.simplify(sp.expand(actB) / sp.expand(refB))
+    if lam.free_symbols - {x_ for x_ in lam.free_symbols if str(x_).startswith("ch[")} or lam == 0:
+        ck.fail(rule, "common-factor", f"verifier's B scalar is not a multiple of the reference by a challenge-only factor: ratio {lam}", where)
+        return
     acc = {0: [], 1: []}  # formal-sum terms per power of r
     coefB = {0: sp.Integer(0), 1: sp.Integer(0)}
     coefBb = {0: sp.Integer(0), 1: sp.Integer(0)}
@@ -443,9 +450,9 @@ def completeness_identities(ck, F, pv, rule="R01.5"):
         z = zip_vecs(vec, fac, bnd)
         o2 = sp.Integer(0)
         for sg in z.nonempty_segs():
-            acc[0].append((sg.n, (lambda jj, fam=fam, o2=o2: fam(o2 + jj)), (lambda jj, sg=sg: -sg.f(jj).items[0].e * sg.f(jj).items[1].e)))
+            acc[0].append((sg.n, (lambda jj, fam=fam, o2=o2: fam(o2 + jj)), (lambda jj, sg=sg: -lam * sg.f(jj).items[0].e * sg.f(jj).items[1].e)))
             o2 = sp.expand(o2 + sg.n)
-    coefB[0] += -W * s["t_x"].e
+    coefB[0] += -lam * W * s["t_x"].e
     # ---- r^0: opening relation vanishes identically
     F0 = Pt(acc[0] + [(sp.Integer(1), lambda jj: B, lambda jj: coefB[0]), (sp.Integer(1), lambda jj: Bb, lambda jj: coefBb[0])])
     res0 = {k: v for k, v in F0.canon().items() if not eq(v, 0)}
@@ -458,5 +465,5 @@ def completeness_identities(ck, F, pv, rule="R01.5"):
     nn = n1 + n2
     gate = mk_sum(nn, Y**kk * (aL(kk) * aR(kk) - aO(kk)), kk)
     lin = mk_sum(nn, wL(kk) * aL(kk) + wR(kk) * aR(kk) + wO(kk) * aO(kk), kk) - mk_sum(m, wV(kk) * sfun("v")(kk), kk) - REF.wc
-    want = -(X**2) * (gate + lin)
+    want = -lam * (X**2) * (gate + lin)
     ck.require(eq(totalB, want), rule, "evaluation-relation:value", "the B coefficient of the evaluation relation must be -x^2 ( <y^n, aL o aR - aO> + <wL,aL>+<wR,aR>+<wO,aO> - <wV,v> - wc ): it vanishes exactly when gates and flattened constraints are satisfied", where, detail="t_2 = delta + wc + <wV,v> under satisfaction")
